@@ -7,6 +7,7 @@
 //!         "steps": [ {"ctl": [action..], "hosts": {"<h>": [cmd..]}} .. ]}
 //! ctl action = ["hold"|"release"|"partition"|"repair"|"partition_oneway"|"repair_oneway", a, b]
 //!            | ["deliver", a, b, k]           k-th message on link (a,b) as Sim::links lists it
+//!            | ["set_fail_rate", r] | ["set_link_fail_rate", a, b, r]   (cfg "fail"/"repair": Builder rates)
 //! host cmd   = ["bind", lid, "unspec"|"loop", port]
 //!            | ["connect", cid, dst, port] | ["connect_t", cid, dst, port, timeout_ms]
 //!              dst = {"h": i} (ip of host i) | {"name": i} (by host name) | "loop" | "none"
@@ -503,6 +504,8 @@ pub fn run_case(case: &Value) -> Value {
     if let Some(e) = cfg.get("eph").and_then(|e| e.as_array()) {
         b.ephemeral_ports(e[0].as_u64().unwrap() as u16..=e[1].as_u64().unwrap() as u16);
     }
+    b.fail_rate(cfg["fail"].as_f64().unwrap_or(0.0))
+        .repair_rate(cfg["repair"].as_f64().unwrap_or(0.0));
     let mut sim = b.build();
     let _ = turmoil::verif::take_decisions();
     let ips: Vec<IpAddr> = (0..n).map(|i| sim.lookup(format!("h{i}"))).collect();
@@ -557,11 +560,16 @@ pub fn run_case(case: &Value) -> Value {
     }
 
     let mut post: Vec<Value> = Vec::new();
+    let mut coins: Vec<Value> = Vec::new();
     let steps = case["steps"].as_array().unwrap();
     for (k, st) in steps.iter().enumerate() {
         *step_no.borrow_mut() = k as u64;
         for act in st["ctl"].as_array().unwrap() {
             let name = act[0].as_str().unwrap();
+            if name == "set_fail_rate" {
+                sim.set_fail_rate(act[1].as_f64().unwrap());
+                continue;
+            }
             let a = ips[act[1].as_u64().unwrap() as usize];
             let b = ips[act[2].as_u64().unwrap() as usize];
             match name {
@@ -571,6 +579,7 @@ pub fn run_case(case: &Value) -> Value {
                 "repair" => sim.repair(a, b),
                 "partition_oneway" => sim.partition_oneway(a, b),
                 "repair_oneway" => sim.repair_oneway(a, b),
+                "set_link_fail_rate" => sim.set_link_fail_rate(a, b, act[3].as_f64().unwrap()),
                 "deliver" => {
                     let (lo, hi) = if a < b { (a, b) } else { (b, a) };
                     let kk = act[3].as_u64().unwrap() as usize;
@@ -600,6 +609,26 @@ pub fn run_case(case: &Value) -> Value {
             c.notify.notify_one();
         }
         sim.step().expect("step");
+        // the coins of the random link failure, one entry per Link::enqueue_message of this step:
+        // [step, src host, dst host, rand_partition coin, rand_repair coin came up]
+        for d in turmoil::verif::take_decisions() {
+            match d {
+                turmoil::verif::Decision::Enqueue { src, dst } => {
+                    coins.push(json!([k, canon_ip(src.ip(), &ips), canon_ip(dst.ip(), &ips), false, false]));
+                }
+                turmoil::verif::Decision::RandPartition(b) => {
+                    if let Some(c) = coins.last_mut() {
+                        c[3] = json!(b);
+                    }
+                }
+                turmoil::verif::Decision::RandRepair(b) => {
+                    if let Some(c) = coins.last_mut() {
+                        c[4] = json!(b);
+                    }
+                }
+                _ => {}
+            }
+        }
         let counts: Vec<Value> = ips
             .iter()
             .map(|ip| {
@@ -609,6 +638,5 @@ pub fn run_case(case: &Value) -> Value {
             .collect();
         post.push(json!([links_view(&sim, &ips), counts]));
     }
-    let _ = turmoil::verif::take_decisions();
-    json!({ "res": *res_log.borrow(), "bg": *bg_log.borrow(), "post": post, "panic": Value::Null })
+    json!({ "res": *res_log.borrow(), "bg": *bg_log.borrow(), "post": post, "coins": coins, "panic": Value::Null })
 }
